@@ -15,6 +15,7 @@
 from .worker import Worker, WorkerType, WorkerTerminatedError
 
 import os
+import time
 import queue
 import logging
 import threading
@@ -30,6 +31,7 @@ class ProcessWorker(Worker):
         self._comms = Pipe()
         self._ctrl_comms = Pipe()
         self._is_child = False
+        self._early_result = None
         super().__init__(*args, **kwargs)
         assert not self.is_child
         self._comms.child_end.close()
@@ -73,11 +75,31 @@ class ProcessWorker(Worker):
             raise ValueError('A worker cannot wait for itself')
         if not self.is_alive():
             return True
-        self._child.join(timeout)
+        self._join_child(timeout)
         alive = self._child.is_alive()
         if not alive:
             self._dead = True
         return not alive
+
+    def _join_child(self, timeout):
+        ''' Join the child while keeping an eye on its result pipe - a final result which does not
+            fit the pipe's buffer would otherwise block the child (and us) until someone reads it.
+        '''
+        deadline = None if timeout is None else time.monotonic() + timeout
+        while self._early_result is None:
+            remaining = None if deadline is None else max(0, deadline - time.monotonic())
+            ready = mp.connection.wait([self._child.sentinel, self._comms.parent_end], remaining)
+            if self._comms.parent_end not in ready:
+                break
+            try:
+                self._early_result = (self._comms.parent_end.get(), )
+            except queue.Empty:
+                break
+            except Exception:
+                logger.debug('Could not read the result of {}', self, exc_info=1)
+                self._early_result = (None, )
+
+        self._child.join(None if deadline is None else max(0, deadline - time.monotonic()))
 
     def terminate(self, timeout=1, force=True):
         ''' Default timeout is 1 sec
@@ -132,6 +154,9 @@ class ProcessWorker(Worker):
                     logger.debug('Could not read the result of {}', self, exc_info=1)
                     self._result = None
                     break
+
+            if self._result is None and self._early_result is not None:
+                self._result = self._early_result[0] # already read while waiting for the child
 
             if self._result is None:
                 self._result = (False, None)
